@@ -318,14 +318,22 @@ func runSession(s Session, force, header bool) (*sessionOut, *mon.Result) {
 		}
 		return nil, &mon.Result{Verdict: mon.Violated, Key: "c03/open-failed", Detail: "Open: " + err.Error()}
 	}
-	defer func() {
+	closed := false
+	closeDriver := func() bool {
+		if closed {
+			return true
+		}
+		closed = true
 		done := make(chan struct{})
 		go func() { defer func() { recover(); close(done) }(); d.Close() }()
 		select {
 		case <-done:
+			return true
 		case <-time.After(5 * time.Second):
+			return false
 		}
-	}()
+	}
+	defer closeDriver()
 	if d.SelectedVersion != s.Version {
 		return nil, &mon.Result{Verdict: mon.Violated, Key: "c03/harness:version", Detail: fmt.Sprintf("session selected %q, case wants %q", d.SelectedVersion, s.Version)}
 	}
@@ -596,7 +604,57 @@ func runSession(s Session, force, header bool) (*sessionOut, *mon.Result) {
 	if c != nil {
 		return nil, viol(c, len(s.Reqs)-1, s.Reqs[len(s.Reqs)-1], srv)
 	}
+	// Close is part of the client's stream: whatever it writes must again be complete, well-formed
+	// messages in the session's framing (the pinned library writes nothing).
+	var wireAtClose int
+	conn.Do(func() { wireAtClose = len(srv.Wire) })
+	if !closeDriver() {
+		out.obs["close_did_not_return_in_5s_tail_not_judged"]++
+		return out, nil
+	}
+	conn.Do(func() { c = judgeCloseTail(s, srv, wireAtClose, prevID, out) })
+	if c != nil {
+		r := viol(c, len(s.Reqs)-1, s.Reqs[len(s.Reqs)-1], srv)
+		r.Detail = "at Close: " + c.detail
+		return nil, r
+	}
+	out.obs["sessions_closed_and_tail_decoded"]++
 	return out, nil
+}
+
+// judgeCloseTail (conn mutex held) judges what the client wrote after the last request, Close included.
+func judgeCloseTail(s Session, srv *ncsim.Server, wireAtClose, prevID int, out *sessionOut) *complaint {
+	out.obs["bytes_written_at_close"] += int64(len(srv.Wire) - wireAtClose)
+	if srv.ProtoErr != "" {
+		return bad("c03/wire-undecodable:"+s.Version, "the strict decoder rejects the client's byte stream: %s", srv.ProtoErr)
+	}
+	for _, m := range srv.Msgs[len(s.Reqs)+1:] {
+		out.obs["messages_written_at_close"]++
+		dc, err := parseDoc(m.Payload, false)
+		if err != nil {
+			return bad("c03/xml:not-well-formed:at-close", "message written at Close is not well-formed: %v: %s", err, clip(m.Payload))
+		}
+		r := dc.root
+		ids, _ := r.attr("", "message-id")
+		id, err := strconv.Atoi(ids)
+		if r.name.Local != "rpc" || r.name.Space != baseNS || err != nil || id <= prevID {
+			return bad("c03/xml:root:at-close", "message written at Close is not an <rpc> in the base namespace with a fresh integer message-id (last request had %d): %s", prevID, clip(m.Payload))
+		}
+		prevID = id
+		want := "\n"
+		if s.Version == "1.1" {
+			want = ""
+		}
+		if string(m.PreGap) != want {
+			return bad("c03/separator:"+s.Version, "bytes before the message written at Close are %q, want %q", m.PreGap, want)
+		}
+	}
+	// what is left undecoded may only be the return(s) after the last message; anything else is a
+	// message that never completes (the transport is closed behind it)
+	if rest := srv.Leftover(); len(bytes.Trim(rest, "\n")) != 0 {
+		return bad("c03/incomplete-message:"+s.Version, "the client's stream ends inside a message: after the last complete message the wire holds %s", clip(rest))
+	}
+	return nil
 }
 
 // judgeStream judges a session in which calls and messages do not pair up one by one (a call
